@@ -109,7 +109,8 @@ type Source struct {
 	Calls    int
 	Mode     int
 	G        *prng.Rng
-	FailAt   int  // 1-based call index that fails (0: never); stays failed afterwards
+	FailAt   int  // 1-based call index that fails (0: never); stays failed afterwards unless FailOnce
+	FailOnce bool // only call FailAt fails (a transient error); later calls carry on
 	FailData bool // the failing call also returns some bytes
 	Budget   int
 	EOFs     int
@@ -127,7 +128,7 @@ func (s *Source) Read(p []byte) (int, error) {
 	if s.Calls > b {
 		panic(BudgetExceeded{fmt.Sprintf("source read %d times", s.Calls)})
 	}
-	if s.FailAt > 0 && s.Calls >= s.FailAt {
+	if s.FailAt > 0 && (s.Calls == s.FailAt || (s.Calls > s.FailAt && !s.FailOnce)) {
 		e := &InjErr{K: s.Calls}
 		s.Errs = append(s.Errs, e)
 		n := 0
@@ -217,4 +218,30 @@ func Partition(g *prng.Rng, n, style, blockSize int) []int {
 		rem -= k
 	}
 	return parts
+}
+
+// SeekableSource is a Source that also implements io.Seeker (like *os.File or
+// *bytes.Reader, which is what callers usually hand to a Reader).
+type SeekableSource struct{ *Source }
+
+func (s SeekableSource) Seek(offset int64, whence int) (int64, error) {
+	var abs int64
+	switch whence {
+	case io.SeekStart:
+		abs = offset
+	case io.SeekCurrent:
+		abs = int64(s.Pos) + offset
+	case io.SeekEnd:
+		abs = int64(len(s.Data)) + offset
+	default:
+		return 0, fmt.Errorf("gen: invalid whence")
+	}
+	if abs < 0 {
+		return 0, fmt.Errorf("gen: negative position")
+	}
+	if abs > 1<<40 {
+		abs = 1 << 40
+	}
+	s.Pos = int(abs) // seeking past the end is allowed, as for files
+	return abs, nil
 }
